@@ -184,7 +184,7 @@ theorem lines_build_eq_layout (x : Sequence) (h : covered x = true) :
     simp only [wfLayoutG, Bool.and_eq_true] at hG
     exact hG.1.1
   simp only [wfLayoutJ, Bool.and_eq_true, bne_iff_ne, ne_eq, decide_eq_true_eq] at hj
-  obtain ⟨⟨⟨⟨⟨⟨⟨⟨⟨⟨⟨⟨⟨_, td⟩, ta⟩, tv⟩, tk⟩, ts⟩, to⟩, hrefs⟩, _⟩, hother⟩, hfeat⟩, hne⟩, _⟩, _⟩ := hj
+  obtain ⟨⟨⟨⟨⟨⟨⟨⟨⟨⟨⟨⟨⟨⟨_, td⟩, ta⟩, tv⟩, tk⟩, ts⟩, to⟩, hrefs⟩, _⟩, hother⟩, hfeat⟩, hne⟩, _⟩, _⟩, _⟩ := hj
   have k1 : "DEFINITION".toList = ['D', 'E', 'F', 'I', 'N', 'I', 'T', 'I', 'O', 'N'] := by decide
   have k2 : "ACCESSION".toList = ['A', 'C', 'C', 'E', 'S', 'S', 'I', 'O', 'N'] := by decide
   have k3 : "VERSION".toList = ['V', 'E', 'R', 'S', 'I', 'O', 'N'] := by decide
